@@ -21,7 +21,10 @@ import (
 	"github.com/IrineSistiana/mosdns/v5/pkg/upstream/transport"
 	"github.com/miekg/dns"
 
+	"github.com/quic-go/quic-go"
+
 	"verifharness/hx"
+	"verifharness/quicx"
 )
 
 // ---------- stream description (mirrors Judge.C16.seg) ----------
@@ -74,6 +77,8 @@ type chunkReader struct {
 	rem   int // bytes left in the current chunk (-1 = need next size)
 	fresh bool
 	fails int
+	// failErr is what an injected failure returns (nil = errInjected)
+	failErr error
 }
 
 func newChunkReader(segs []seg, sizes []int) *chunkReader {
@@ -102,6 +107,9 @@ func (r *chunkReader) Read(p []byte) (int, error) {
 			r.run++
 			r.cur, r.rem = 0, -1
 			if r.run < len(r.runs) {
+				if r.failErr != nil {
+					return 0, r.failErr
+				}
 				return 0, errInjected
 			}
 			return 0, io.EOF
@@ -187,6 +195,97 @@ func runStream(w *hx.Writer, id string, segs []seg, sizes []int) {
 		Coq:  hx.App("CStream", hx.List(sc), hx.NatList(sizes), hx.List(obs), hx.Ni(code)),
 		Desc: map[string]any{"kind": "stream", "segs": desc, "chunk_sizes": sizes, "frames_read": len(obs), "err": code},
 		FKey: "stream",
+	})
+}
+
+// ---------- the DoQ client on an in-memory stream ----------
+
+// How an injected failure of the reply stream looks to the client.
+var doqFailKinds = []string{"injected", "reset", "timeout"}
+
+func doqFailErr(kind string) error {
+	switch kind {
+	case "reset": // RESET_STREAM from the peer
+		return &quic.StreamError{StreamID: 0, ErrorCode: 0x2, Remote: true}
+	case "timeout": // the read deadline passed
+		return quicx.TimeoutError{}
+	}
+	return errInjected
+}
+
+// runDoq: one exchange of the real DoQ client (transport.NewQuicDnsConn) on a fake connection whose only
+// stream answers, after the client's FIN, with the described byte stream cut into the described reads.
+// A panic of the client is recovered here and reported as a violation of the property.
+func runDoq(w *hx.Writer, id string, qid uint16, qn int, qseed uint64, segs []seg, sizes []int, failKind string) {
+	q := make([]byte, 2, 2+qn)
+	binary.BigEndian.PutUint16(q, qid)
+	q = append(q, hx.GenBytes(qn, qseed)...)
+	failErr := doqFailErr(failKind)
+	st := quicx.NewStream()
+	st.Reply = func([]byte) io.Reader {
+		r := newChunkReader(segs, sizes)
+		r.failErr = failErr
+		return r
+	}
+	sc := make([]string, len(segs))
+	sd := []string{}
+	for i, s := range segs {
+		sc[i] = s.coq()
+		sd = append(sd, fmt.Sprintf("%s(%d)", s.kind, s.n))
+	}
+	desc := map[string]any{"kind": "doq", "qid": qid, "qlen": qn + 2, "segs": sd, "chunk_sizes": sizes, "fail_kind": failKind}
+
+	ret, code := "None", 0
+	var cerr error
+	p := hx.Recover(func() {
+		dc := transport.NewQuicDnsConn(quicx.NewConn(st))
+		defer dc.Close()
+		rx, _ := dc.ReserveNewQuery()
+		if rx == nil {
+			cerr = errors.New("no stream reserved")
+			code = 9
+			return
+		}
+		// nothing here waits on real time; the deadline only bounds a client that never returns
+		ctx, cancel := context.WithTimeout(context.Background(), 30*time.Second)
+		defer cancel()
+		resp, err := rx.ExchangeReserved(ctx, q)
+		cerr = err
+		switch {
+		case err == nil && resp == nil:
+			code = 8 // neither a message nor an error
+		case err == nil:
+			b := *resp
+			if len(b) >= 2 {
+				ret = hx.Some(hx.Tuple(hx.Ni(int(binary.BigEndian.Uint16(b))), hx.Ni(len(b)), hx.N(hx.Sum(b[2:]))))
+			} else {
+				ret = hx.Some(hx.Tuple("0", hx.Ni(len(b)), "0"))
+			}
+			pool.ReleaseBuf(resp)
+		case resp != nil:
+			code = 7 // a message together with an error
+		case err == failErr:
+			code = 3
+		default:
+			code = errCode(err)
+		}
+	})
+	if p != nil {
+		desc["panic"] = fmt.Sprint(p)
+		w.Violation(id, "the DoQ client panicked on this reply stream: "+fmt.Sprint(p), desc)
+		return
+	}
+	wrote, writes := st.Written()
+	if cerr != nil {
+		desc["error"] = cerr.Error()
+	}
+	desc["err"] = code
+	w.Emit("doq", hx.Case{
+		ID: id,
+		Coq: hx.App("CDoq", hx.Ni(int(qid)), hx.Ni(qn), hx.N(qseed), hx.List(sc), hx.NatList(sizes),
+			hx.Tuple(hx.Ni(writes), hx.Ni(len(wrote)), hx.N(hx.Sum(wrote))), hx.Bool(st.FinSent()), ret, hx.Ni(code)),
+		Desc: desc,
+		FKey: "doq",
 	})
 }
 
@@ -606,6 +705,89 @@ func main() {
 		if o.Want(id) {
 			runUnpack(w, id, l, uint64(l))
 		}
+	}
+
+	// the DoQ client: malformed reply streams (each must be an error, never a panic) and whole frames of
+	// boundary sizes, served in pieces
+	hdr := func(l int) seg { return seg{kind: "bytes", b: []byte{byte(l >> 8), byte(l)}} }
+	type doqCat struct {
+		name  string
+		segs  []seg
+		sizes [][]int
+	}
+	pieces := [][]int{nil, {1}, {0, 1, 0, 3}, {2, 5}}
+	doqCats := []doqCat{
+		{"fin-only", []seg{}, [][]int{nil}},
+		{"hdr-1-byte", []seg{{kind: "bytes", b: []byte{0}}}, [][]int{nil, {1}}},
+		{"hdr-1-byte-ff", []seg{{kind: "bytes", b: []byte{0xff}}}, [][]int{nil}},
+		{"hdr-only", []seg{hdr(40)}, [][]int{nil, {1}}},
+		{"short-body", []seg{hdr(40), {kind: "raw", n: 10, seed: 3}}, pieces},
+		{"short-body-by-1", []seg{hdr(40), {kind: "raw", n: 39, seed: 4}}, pieces},
+		{"short-body-big", []seg{hdr(65535), {kind: "raw", n: 700, seed: 5}}, [][]int{nil, {64}}},
+		{"garbage", []seg{{kind: "bytes", b: []byte{0xff, 0xff, 0xde, 0xad, 0xbe, 0xef}}}, [][]int{nil, {1}}},
+		{"reset-at-once", []seg{{kind: "fail"}}, [][]int{nil}},
+		{"reset-in-hdr", []seg{{kind: "bytes", b: []byte{0}}, {kind: "fail"}}, [][]int{nil, {1}}},
+		{"reset-after-hdr", []seg{hdr(29), {kind: "fail"}, {kind: "raw", n: 29, seed: 6}}, [][]int{nil, {1}}},
+		{"reset-in-body", []seg{hdr(29), {kind: "raw", n: 20, seed: 7}, {kind: "fail"}, {kind: "raw", n: 9, seed: 8}}, pieces},
+		{"reset-after-frame", []seg{{kind: "frame", n: 29, seed: 9}, {kind: "fail"}}, [][]int{nil, {1}}},
+		{"frame-then-garbage", []seg{{kind: "frame", n: 29, seed: 10}, {kind: "raw", n: 5, seed: 11}}, pieces},
+		{"two-frames", []seg{{kind: "frame", n: 13, seed: 12}, {kind: "frame", n: 40, seed: 13}}, pieces},
+	}
+	for l := 0; l <= 12; l++ {
+		// a frame announcing less than a DNS header plus one byte, complete
+		doqCats = append(doqCats, doqCat{fmt.Sprintf("len-%d", l), []seg{{kind: "frame", n: l, seed: uint64(20 + l)}}, [][]int{nil, {1}}})
+	}
+	for _, c := range doqCats {
+		for ci, sizes := range c.sizes {
+			for _, fk := range doqFailKinds {
+				hasFail := false
+				for _, s := range c.segs {
+					hasFail = hasFail || s.kind == "fail"
+				}
+				if fk != "injected" && !hasFail {
+					continue
+				}
+				id := fmt.Sprintf("doq:cat:%s:%d:%s", c.name, ci, fk)
+				if o.Want(id) {
+					runDoq(w, id, 0x1234, 27, 77, c.segs, sizes, fk)
+				}
+			}
+		}
+	}
+	for _, n := range []int{13, 14, 512, 4096, 65534, 65535} {
+		for ci, sizes := range [][]int{nil, {1}, {1, 1, 70000}, {0, 1, 0, 3}, {7, 500}} {
+			id := fmt.Sprintf("doq:cat:frame:%d:%d", n, ci)
+			if n > 60000 && (ci == 1 || ci == 3 || (quick && !(n == 65535 && ci == 2))) {
+				continue // a 64 KiB payload costs seconds inside Coq: one chunking in the quick tier, no 1-byte reads
+			}
+			if o.Want(id) {
+				runDoq(w, id, uint16(0xF000+ci), 40+ci, uint64(n), []seg{{kind: "frame", n: n, seed: uint64(n + 3)}}, sizes, "injected")
+			}
+		}
+	}
+	nd := o.Count(150, 4000)
+	qids := []uint16{0, 1, 0x00FF, 0x0100, 0x8000, 0xFFFF}
+	for i := 0; i < nd; i++ {
+		id := fmt.Sprintf("doq:gen:%d", i)
+		if !o.Want(id) {
+			continue
+		}
+		r := hx.NewRNG(o.Seed, id)
+		qid := hx.Pick(r, qids)
+		if r.Bool() {
+			qid = uint16(r.Intn(65536))
+		}
+		segs := genStream(r)
+		if r.Chance(1, 3) {
+			// a frame cut short: a well-formed frame of which only a prefix arrives before FIN or a failure
+			n := r.Range(13, 300)
+			full := seg{kind: "frame", n: n, seed: r.U64() % 1000000}.bytes()
+			segs = []seg{{kind: "bytes", b: full[:r.Intn(len(full))]}}
+			if r.Bool() {
+				segs = append(segs, seg{kind: "fail"})
+			}
+		}
+		runDoq(w, id, qid, r.Range(10, 300), r.U64()%1000000, segs, genSizes(r), hx.Pick(r, doqFailKinds))
 	}
 
 	// generated
